@@ -186,3 +186,5 @@ package main
 //@   ensures#once $ppcalls <= old($ppcalls) + 1                                                                                 [C10]
 //@   ensures#nil err != nil ==> fileKey == nil                                                                                  [C04 C14]
 //@   call Unwrap#1 requires same(arg1, stanzas)                                                                                 [C10]
+
+//@ methodset (*lazyOpener) Close, Write                                                [C15]
